@@ -1789,7 +1789,9 @@ def _with_gs_fallback(ctx, rule, shape_fn, keys_decided, names):
                 continue
         if not o.ok and k1 == "decode-all-blocks":
             okd, detd = rsdec_exec(ctx)
-            if okd:
+            oke, dete = errprop_exec(ctx)
+            detd = str(detd) + "; " + str(dete)
+            if okd and oke:
                 out.append(Ob(rule, k1, True, o.what + " (decided by folding decode() for all 48 sizes: " + str(detd) + ")", site=o.site))
                 continue
         if o in failed and okx:
@@ -1909,3 +1911,64 @@ def root_cover(ctx):
     out = [o if o.ok or not okx else Ob(r, o.key.split(":", 1)[1], True, o.what + " (statement shape not recognised; decided by folding chien_search over linear forms: " + str(detx) + ")", site=o.site) for o in obs]
     out.append(Ob(r, "exec", bool(okx) or (okx is None and not failed), ("cannot decide: " if okx is None else "") + "chien_search folded with opaque coefficients: " + str(detx)))
     return out
+
+
+def errprop_exec(ctx):
+    """decode() folded for the multi-block sizes with the syndrome evaluation reporting `errors` for exactly one block j and the
+    locator refusing (Err): whatever j is, decode() must return Err - a failing block is never swallowed by a later clean one.
+    (ok | None, detail)"""
+    return ctx.memo("errprop_exec", lambda: list(_errprop_exec(ctx)))
+
+
+def _errprop_exec(ctx):
+    f = ctx.facts()
+    b = f.thir.get(DEC)
+    if b is None:
+        return None, "decode not found"
+    t = p_symbols.tables(ctx)
+    pn = [p_["pat"]["name"] for p_ in b["params"] if p_.get("pat", {}).get("k") == "Bind"]
+    if len(pn) != 2:
+        return None, "unexpected parameters"
+    multi = [v for v in t["variants"] if t["setup"][v]["num_ecc_blocks"] > 1]
+    pick = [multi[0], multi[len(multi) // 2], multi[-1]] if ctx.tier != "thorough" else multi
+    n = 0
+    for v in pick:
+        su, nd = t["setup"][v], t["data"][v]
+        B, k = su["num_ecc_blocks"], su["num_ecc_per_block"]
+        for j in range(B):
+            st = {"call": 0}
+
+            def on_call(folder, c, st=st, j=j, su=su, nd=nd):
+                cc = T.canon(T.callee_of(c))
+                if cc == SS + "::block_setup":
+                    d = {"__adt__": "symbol_size::BlockSetup", "__variant__": "BlockSetup"}
+                    for i, nm in enumerate(T.ADT_FIELDS.get("symbol_size::BlockSetup") or list(su)):
+                        d[nm] = su.get(nm)
+                        d["#%d" % i] = su.get(nm)
+                    return d
+                if cc == SS + "::num_data_codewords":
+                    return nd
+                if cc == PEE:
+                    st["call"] += 1
+                    return st["call"] - 1 == j         # only block j has non-zero syndromes
+                if cc.endswith("find_inv_error_locations_levinson_durbin") or cc.endswith("find_inv_error_locations_bm"):
+                    return {"__adt__": "core::result::Result", "__variant__": "Err", "#0": {"__adt__": "errorcode::decoding::ErrorDecodingError", "__variant__": "TooManyErrors"}, "0": None}
+                if cc.endswith("split_at_mut") and len(c["args"]) == 2:
+                    v0 = T._loaded(folder.fold(c["args"][0]))
+                    m = folder.fold(c["args"][1])
+                    if isinstance(v0, list) and isinstance(m, int) and 0 <= m <= len(v0):
+                        refs = [x if isinstance(x, T.Ref) else T.Ref(v0, i) for i, x in enumerate(v0)]
+                        return (refs[:m], refs[m:])
+                return NotImplemented
+            fo = T.Folder(f, env={pn[0]: [T.Token("c%d" % i) for i in range(nd + B * k)], pn[1]: v}, on_call=on_call, effects=True, local_calls=3)
+            fo.max_iter = 5000
+            try:
+                res = fo.run(b["body"])
+            except T.Trap as ex:
+                return False, "%s: decode() traps: %s" % (v, ex)
+            except T.Undecidable as ex:
+                return None, "%s: decode() does not fold with a failing block (%s)" % (v, ex)
+            n += 1
+            if not (isinstance(res, dict) and res.get("__variant__") == "Err"):
+                return False, "%s: block %d of %d cannot be decoded, yet decode() returns %s" % (v, j, B, res.get("__variant__") if isinstance(res, dict) else res)
+    return True, "%d (size, failing block) combinations: the failure is returned" % n
